@@ -248,6 +248,10 @@ def main():
                 for f, n in pr["features"].items():
                     chk.nontrivial_case(f)
                     chk.count(f"exact at feature {f}", n)
+                    if f.startswith("nested-field-read-after-late-write:"):
+                        chk.count("exact probes of the family 'nested object modified in the callee after it was stored'", n)
+                    if f.startswith("field-read-after-multi-exit-callee-write:"):
+                        chk.count("exact probes of the family 'helper with several exits writes a parameter object's field'", n)
                 if pr["sample"]:
                     chk.sample(pr["sample"])
                 case = progs[uid].to_case() if uid in progs else {"uid": uid}
@@ -262,6 +266,9 @@ def main():
         chk.require("... of which non-trivial", 500 if not thorough else 13000)
         chk.require("decision vectors executed in CPython", 300 if not thorough else 8000)
         chk.require("compute_two_states calls recorded", 200 if not thorough else 5000)
+        # the two scripted families (measured quick 224-239 / 223-248, thorough 6761 / 6813)
+        chk.require("exact probes of the family 'nested object modified in the callee after it was stored'", 80 if not thorough else 2500)
+        chk.require("exact probes of the family 'helper with several exits writes a parameter object's field'", 80 if not thorough else 2500)
         first = next(iter(progs.values()), None)
         if first is not None:
             chk.sample({"program": first.text})
